@@ -7,7 +7,8 @@ D="$(cd "$1" && pwd)"
 W=$(mktemp -d /tmp/bov.XXXX)
 git -C /repo worktree add -q --detach "$W/wt" HEAD || exit 2
 cd "$W/wt"
-if ! git apply "$D/patch.diff"; then echo "patch does not apply: $D"; cd /; git -C /repo worktree remove --force "$W/wt"; rm -rf "$W"; exit 1; fi
+EXCL=""; [ -f "$D/exclude.txt" ] && EXCL=$(sed "s/^/--exclude=/" "$D/exclude.txt" | tr "\n" " ")
+if ! git apply $EXCL "$D/patch.diff"; then echo "patch does not apply: $D"; cd /; git -C /repo worktree remove --force "$W/wt"; rm -rf "$W"; exit 1; fi
 python3 - "$D" <<'PY'
 import json,subprocess,sys,hashlib,os
 d=sys.argv[1]
